@@ -77,7 +77,7 @@ theorem C10_setup (s s1 : SpecSt) (path : Path) (made : List Path)
   simp only [Except.ok.injEq, Prod.mk.injEq] at h
   obtain ⟨hs, _⟩ := h
   subst hs
-  refine ⟨?_, by simp, by simp, hcf, hc⟩
+  refine ⟨?_, by simp [setupState], by simp [setupState], hcf, hc⟩
   exact isFile_eraseIfFile _ _
 
 end FB
